@@ -165,6 +165,8 @@ pub enum PublicInputError {
 
     #[error("invalid number of segments")]
     InvalidSegments,
+    #[error("main page does not hold the program / output cells at their addresses")]
+    MainPageInvalid,
 
     #[error("dynamic params missing")]
     DynamicParamsMissing,
@@ -263,6 +265,8 @@ pub enum PublicInputError {
 
     #[error("invalid number of segments")]
     InvalidSegments,
+    #[error("main page does not hold the program / output cells at their addresses")]
+    MainPageInvalid,
 
     #[error("dynamic params missing")]
     DynamicParamsMissing,
